@@ -373,11 +373,12 @@ Definition opt_N_eqb (a b : option N) : bool :=
   | _, _ => true
   end.
 
-(* the (a->flags & BUS_MATCH_PATH) && strcmp (a->path, b->path) clause: nothing is compared
-   for BUS_MATCH_PATH_NAMESPACE *)
+(* the (a->flags & BUS_MATCH_PATH) && strcmp (a->path, b->path) clause and, since commit 5996fca, the same
+   clause under BUS_MATCH_PATH_NAMESPACE; the flag words are already known to be equal, so both sides have
+   the same kind *)
 Definition path_clause (a b : option (bool * bytes)) : bool :=
   match a, b with
-  | Some (false, x), Some (_, y) => bytes_eqb x y
+  | Some (_, x), Some (_, y) => bytes_eqb x y
   | _, _ => true
   end.
 
